@@ -33,7 +33,7 @@ type skInput struct {
 
 var skAllPoints = []int{
 	skiplist.VerifPtLevelLoad, skiplist.VerifPtLevelCas, skiplist.VerifPtFP0, skiplist.VerifPtFP1, skiplist.VerifPtFP2,
-	skiplist.VerifPtFPH, skiplist.VerifPtInsPub, skiplist.VerifPtInsOwn, skiplist.VerifPtInsLink, skiplist.VerifPtInsCheck, skiplist.VerifPtSdLoad,
+	skiplist.VerifPtFPH, skiplist.VerifPtInsPub, skiplist.VerifPtInsOwn, skiplist.VerifPtInsLink, skiplist.VerifPtInsCheck, skiplist.VerifPtInsSucc, skiplist.VerifPtSdLoad,
 	skiplist.VerifPtSdCas, skiplist.VerifPtItFirst, skiplist.VerifPtItNext, skiplist.VerifPtItHelp,
 }
 
